@@ -70,6 +70,17 @@ def _witness_args(name):
         # follow-up of fix b2b4dd9 (fixaudit-C): the sub-region that reports the chain first holds the FEWER reads (3), the later
         # one 12: the later constructor's reads are reads of the reported isoform
         return dict(starts=(25300, 25700), per_start=(3, 12), n_fill=1700)
+    if name == "split_region_few_reads":
+        # follow-up of fix 0c8e711 (fixaudit-D): the later sub-region holds FEWER reads of the isoform (2) than the novel cutoff:
+        # no local model is built there, the two reads are reads of the model the first sub-region reports
+        return dict(starts=(25300, 25700), per_start=(10, 2), n_fill=1300)
+    if name == "split_region_minus_end":
+        # '-' locus: the low-coordinate end that differs between the groups is the polyT (3') end, 400 bp apart; in a cluster
+        # that is not cut the reads of the second group are `*` (alternative polyA site of the reported model) - so are they here
+        return dict(strand="-", starts=(25300, 25700), per_start=(4, 8), n_fill=1300)
+    if name == "split_region_longer_end":
+        # the later group's polyA end lies 1100 bp further out: class `split_region_apa_variant` (proposed known finding)
+        return dict(starts=(25300, 25700), per_start=(4, 8), ends=(41500, 42600), n_fill=1300)
     if name == "split_region_genedb":
         return dict(seed=12, annotate_f=True, f_exons=((1000, 1500), (26000, 26600)))
     if name == "split_region_monointron":
@@ -96,9 +107,10 @@ def _witness_args(name):
     return None
 
 
-PIPE_WITNESSES = [("split_region", {"genedb": False}), ("split_region_reads", {"genedb": True}), ("split_region_genedb", {"genedb": True}),
+PIPE_WITNESSES = [("split_region", {"genedb": False}), ("split_region_reads", {"genedb": True}), ("split_region_few_reads", {"genedb": False}),
+                  ("split_region_minus_end", {"genedb": True}), ("split_region_genedb", {"genedb": True}),
                   ("split_partial_annotation", {"genedb": True}), ("split_partial_annotation_control", {"genedb": True})]
-PIPE_WITNESSES_THOROUGH = [("split_region_control", {"genedb": False}), ("split_region_monointron", {"genedb": False}), ("split_reference_chain", {"genedb": True}),
+PIPE_WITNESSES_THOROUGH = [("split_region_control", {"genedb": False}), ("split_region_longer_end", {"genedb": False}), ("split_region_monointron", {"genedb": False}), ("split_reference_chain", {"genedb": True}),
                            ("split_gene_in_second_region", {"genedb": True}), ("split_gene_in_first_region", {"genedb": True}),
                            ("split_region", {"genedb": False, "data_type": "pacbio_ccs"}),
                            ("split_region", {"genedb": False, "strategy": "sensitive_ont"})]
@@ -115,6 +127,16 @@ def build_dataset(spec):
 
 LOST_KIND = "supporting_reads_lost"
 LOST_CLASS = "split_region"
+# round c04rep2: the two runs report DIFFERENT models for the chain (another 3' end): the first sub-region's model is written before
+# the later sub-region's reads - whose polyA end lies further out - are seen; in the uncut cluster the variant with the outer end
+# absorbs the other one.  Proposed known finding (counted until listed, like split_region_partial_annotation was)
+APA_CLASS = "split_region_apa_variant"
+APA_ID = "split_region_apa_variant"
+
+
+def apa_finding_listed():
+    kf = vlib.load_known_findings()
+    return any(e.get("property") == "C04" and e.get("id") == APA_ID for e in kf.get("findings", []))
 
 
 def control_spec(spec):
@@ -132,13 +154,18 @@ def control_spec(spec):
 
 
 def read_chain_table(outdir):
-    """-> ({read: sorted chain keys of the spliced models it is listed under}, {chain key: summed transcript_model_counts})
+    """-> ({read: sorted chain keys of the spliced models it is listed under}, {chain key: summed transcript_model_counts},
+           {chain key: sorted 3' ends of the models with that chain})
     chain key = (chr, strand, intron chain) - transcript ids differ between two runs, chains do not"""
     import pipeline as P
     C04 = _C04()
     f = P.out_files(outdir)
     models = C04.gtf_transcripts(f["S.transcript_models.gtf"])
     key = {tid: (t["chr"], t["strand"], tuple(t["introns"])) for tid, t in models.items() if t["introns"]}
+    ends3 = defaultdict(set)
+    for tid, k in key.items():
+        ex = models[tid]["exons"]
+        ends3[k].add(ex[0][0] if k[1] == "-" else ex[-1][1])
     reads = defaultdict(set)
     for l in P.read_lines(f["S.transcript_model_reads.tsv"]):
         rid, tid = l.split("\t")[:2]
@@ -150,14 +177,14 @@ def read_chain_table(outdir):
     for tid, vals in rows.items():
         if tid in key:
             counts[key[tid]] += float(vals[0])
-    return {r: sorted(v) for r, v in reads.items()}, dict(counts)
+    return {r: sorted(v) for r, v in reads.items()}, dict(counts), {k: sorted(v) for k, v in ends3.items()}
 
 
 def differential(out_cut, out_ctl):
     """the reads of the control (= the reads of the locus) are listed under spliced models with the same intron chains in both runs,
     and every chain the control reports has the same count in the cut run.  -> ([(kind, class, detail)], numeric stats)"""
-    cut_r, cut_c = read_chain_table(out_cut)
-    ctl_r, ctl_c = read_chain_table(out_ctl)
+    cut_r, cut_c, cut_e = read_chain_table(out_cut)
+    ctl_r, ctl_c, ctl_e = read_chain_table(out_ctl)
     fails = []
     # mono-intronic chains are not compared: a mono-intronic model must reach `min_mono_count_rel` of the coverage of the
     # OVERLAPPING components (`get_overlapping_component_max_coverage`), so the deep neighbour itself - which the control lacks -
@@ -167,16 +194,25 @@ def differential(out_cut, out_ctl):
     skipped = sum(1 for r, v in ctl_r.items() if mono(v) or mono(cut_r.get(r) or []))
     ctl_r = {r: v for r, v in ctl_r.items() if not (mono(v) or mono(cut_r.get(r) or []))}
     ctl_c = {k: c for k, c in ctl_c.items() if len(k[2]) >= 2}
+
+    def cls_of(keys):
+        # the chain is reported by both runs, with ANOTHER 3' end: the runs chose different polyA variants of the isoform
+        for k in keys:
+            if k in cut_e and k in ctl_e and cut_e[k] != ctl_e[k]:
+                return APA_CLASS
+        return LOST_CLASS
     bad = [(r, v, cut_r.get(r)) for r, v in sorted(ctl_r.items()) if cut_r.get(r) != v]
     if bad:
         r, v, w = bad[0]
-        fails.append((LOST_KIND, LOST_CLASS,
+        fails.append((LOST_KIND, cls_of(set(k for _r, a, b in bad for k in list(a) + list(b or []))),
                       "%d of %d reads of the locus are listed under other intron chains when the read cluster is cut: read %s is listed under %s "
-                      "in the uncut cluster and under %s in the cut one" % (len(bad), len(ctl_r), r, _fmt_keys(v), _fmt_keys(w))))
+                      "in the uncut cluster and under %s in the cut one (3' ends of the models: uncut %s, cut %s)"
+                      % (len(bad), len(ctl_r), r, _fmt_keys(v), _fmt_keys(w), sorted(set(e for k in ctl_e for e in ctl_e[k])),
+                         sorted(set(e for k in ctl_e for e in cut_e.get(k, []))))))
     else:
         for k, c in sorted(ctl_c.items()):
             if abs(cut_c.get(k, 0.0) - c) > 0.005:
-                fails.append((LOST_KIND, LOST_CLASS, "the models with intron chain %s have the count %.2f in the uncut cluster and %.2f in the cut one"
+                fails.append((LOST_KIND, cls_of([k]), "the models with intron chain %s have the count %.2f in the uncut cluster and %.2f in the cut one"
                               % (list(k[2])[:3], c, cut_c.get(k, 0.0))))
                 break
     return fails, {"split_diff_reads_compared": len(ctl_r), "split_diff_chains_compared": len(ctl_c),
@@ -366,19 +402,46 @@ def _key_of(x):
     return (x[0], tuple(tuple(i) for i in x[1]))
 
 
+def _takes_reads(cls):
+    """the current `drop_novel_chains_reported_elsewhere(read_assignment_storage)` (the dict holds MODELS); fix 0c8e711: no argument,
+    the dict holds ids; fix b2b4dd9: a set"""
+    import inspect
+    fn = getattr(cls, "drop_novel_chains_reported_elsewhere", None)
+    return fn is not None and len(inspect.signature(fn).parameters) >= 2
+
+
+def _model_obj(mj):
+    C04 = _C04()
+    IG, GB, GI, PF, TP = C04._impl()
+    m = GI.TranscriptModel(mj["chr"], mj["strand"], mj["tid"], mj["gene"], [tuple(e) for e in mj["exons"]], GI.TranscriptModelType[mj["type"]])
+    m.intron_path = tuple(tuple(i) for i in mj.get("intron_path", []))
+    return m
+
+
 def _set_reported(cls, entries):
-    """`entries`: [[[strand, chain], first id]] - the class attribute is a dict (current code) or a set (fix b2b4dd9)"""
+    """`entries`: [[[strand, chain], model json]] - the class attribute is a dict of models (current code), a dict of ids (fix
+    0c8e711) or a set (fix b2b4dd9)"""
     if isinstance(cls.reported_novel_chains, dict):
-        cls.reported_novel_chains = {_key_of(k): v for k, v in entries}
+        if _takes_reads(cls):
+            cls.reported_novel_chains = {_key_of(k): _model_obj(v) for k, v in entries}
+        else:
+            cls.reported_novel_chains = {_key_of(k): v["tid"] for k, v in entries}
     else:
         cls.reported_novel_chains = set(_key_of(k) for k, _v in entries)
 
 
 def _get_reported(cls):
+    """canonical: [[strand, chain], id of the model reported first, its exons] sorted by key"""
     rep = cls.reported_novel_chains
     if isinstance(rep, dict):
-        return [[[s_, [list(i) for i in ch]], v] for (s_, ch), v in sorted(rep.items())]
-    return [[[s_, [list(i) for i in ch]], ""] for s_, ch in sorted(rep)]
+        return [[[s_, [list(i) for i in ch]], (v if isinstance(v, str) else v.transcript_id),
+                 ([] if isinstance(v, str) else [list(e) for e in v.exon_blocks])] for (s_, ch), v in sorted(rep.items(), key=lambda x: x[0])]
+    return [[[s_, [list(i) for i in ch]], "", []] for s_, ch in sorted(rep)]
+
+
+def _span_exons(span):
+    """corrected exons of the fake reads of a record: their hull is the record's `span` (None: no read has exons)"""
+    return [] if span is None else [(span[0], span[1])]
 
 
 def real_chr_run(kw, snaps=None):
@@ -412,10 +475,14 @@ def real_chr_run(kw, snaps=None):
             mapq = dict((k, v) for k, v in rj["mapq"])
             pool = {}
 
-            def reads(rid, grp="g", pool=pool, mapq=mapq):
+            span_exons = _span_exons(rj.get("span"))
+
+            def reads(rid, grp="g", pool=pool, mapq=mapq, span_exons=span_exons):
                 if rid not in pool:
-                    pool[rid] = C04.FakeRead({"id": rid, "exons": [(1, 2)], "introns": [], "mm": False, "strand": "+", "polya": False,
+                    pool[rid] = C04.FakeRead({"id": rid, "exons": span_exons or [(1, 2)], "introns": [], "mm": False, "strand": "+", "polya": False,
                                               "polyt": False, "group": grp, "mapq": mapq.get(rid, 0)})
+                    if not span_exons:
+                        pool[rid].corrected_exons = []
                 return pool[rid]
             c = _region_constructor(rj, dist, reads)
             rel = rj["_rel"]
@@ -493,19 +560,20 @@ def real_chr_run(kw, snaps=None):
                 cls.assign_reads_to_models(c, storage)
             c.assign_reads_to_models = assign_reads_to_models
             # round c04rep: the REAL forward_counts on a recording counter (the constructors of a chromosome share the counter)
-            snap = {"counted": [], "confirmed": [], "pre_drop": None}
+            snap = {"counted": [], "confirmed": [], "pre_drop": None, "offered": None}
             c.transcript_counter = types.SimpleNamespace(
                 add_read_info_raw=lambda rid, tids, grp, snap=snap: snap["counted"].append((rid, list(tids))),
                 add_unassigned=lambda n_: None,
                 add_confirmed_features=lambda ids_, snap=snap: snap["confirmed"].extend(ids_))
             if hasattr(cls, "drop_novel_chains_reported_elsewhere"):
-                def drop(c=c, snap=snap):
+                def drop(*a_, c=c, snap=snap):
                     # what passed filter_transcripts, with its reads, right before the step under test
                     snap["pre_drop"] = [(m.transcript_id, m.strand, tuple(C04.junctions([tuple(e) for e in m.exon_blocks])),
                                          m.transcript_type != GI.TranscriptModelType.known and len(m.exon_blocks) > 1,
                                          [a.read_id for a in c.transcript_read_ids.get(m.transcript_id, [])])
                                         for m in c.transcript_model_storage]
-                    cls.drop_novel_chains_reported_elsewhere(c)
+                    cls.drop_novel_chains_reported_elsewhere(c, *a_)
+                    snap["offered"] = [m.transcript_id for m in c.transcript_model_storage]
                 c.drop_novel_chains_reported_elsewhere = drop
             if snaps is not None:
                 snaps.append(snap)
@@ -629,7 +697,12 @@ def gen_chr_case(rng, witness=False):
         mapq = [[r, rng.choice([0, 10, 29, 30, 60, 60, 60])] for r in rids + extra]
         for _t, m_ in env["ref_models"]:
             m_["chr"] = env["chr"]
-        regions.append({"env": env, "sd": base["sd"], "paths": paths, "aops": aops, "mapq": mapq, "_extra_reads": extra,
+        # round c04rep2: the hull of the corrected exons of the record's reads (the fake reads carry it): mostly over the
+        # coordinates of the generated models (starting vertices ~10-60, terminal ~400-1400), 20 % far away, 10 % no exons at all
+        u = rng.random()
+        span = None if (u < 0.1 and not witness) else ([5000, 5200] if (u < 0.3 and not witness) else
+                                                        [rng.choice([0, 30, 120, 450]), rng.choice([500, 900, 1500])])
+        regions.append({"env": env, "sd": base["sd"], "paths": paths, "aops": aops, "mapq": mapq, "_extra_reads": extra, "span": span,
                         "min_novel_count": env["min_novel_count"], "mapq_cutoff": 30,
                         "_rel": [0.0, 0.0] if witness else [a.min_mono_count_rel, a.min_novel_count_rel]})
     state = {"detected": [] if witness or rng.random() < 0.8 else [rng.choice(["T1", "T2"])], "idv": 0 if witness else rng.randint(0, 5),
@@ -638,8 +711,13 @@ def gen_chr_case(rng, witness=False):
         src = [pi for rj in regions for pi in rj["paths"] if len(pi["path"]) > 2]
         if src:
             # a chain reported by a constructor before the first record: its model has an id of the distributor's format
-            state["reported"] = [[["+", rng.choice(src)["path"][1:-1]], "transcript%d.%s.nnic" % (900 + rng.randint(0, 9), base["env"]["chr"])]]
-    return {"forbidden": base["forbidden"], "state": state, "regions": regions, "variant": "keep", "_seed": rng.randrange(10 ** 9),
+            pth = rng.choice(src)["path"]
+            inner = pth[1:-1]
+            ex = [[pth[0][1], inner[0][0] - 1]] + [[inner[i][1] + 1, inner[i + 1][0] - 1] for i in range(len(inner) - 1)] + [[inner[-1][1] + 1, pth[-1][1]]]
+            mj = {"chr": base["env"]["chr"], "strand": "+", "tid": "transcript%d.%s.nnic" % (900 + rng.randint(0, 9), base["env"]["chr"]),
+                  "gene": "novel_gene_%s_900" % base["env"]["chr"], "exons": ex, "type": "novel_not_in_catalog", "intron_path": inner}
+            state["reported"] = [[["+", inner], mj]]
+    return {"forbidden": base["forbidden"], "state": state, "regions": regions, "variant": "join", "_seed": rng.randrange(10 ** 9),
             "_quiet": witness}
 
 
@@ -664,13 +742,13 @@ def oracle_chr_case(kw):
     * a (strand, intron chain) reported by two DIFFERENT constructors of one chromosome task is a failure; what one constructor
       reports twice by itself is the per-constructor clause (known finding `monointron_apa_duplicates` / the oracle of
       props/c04sim.py with the real detect_similar_isoforms) and is not judged here;
-    * every line of transcript_model_reads names a model dumped by this or an EARLIER constructor of the chromosome
-      (round c04rep: the reads of a repeated chain are listed under the id of the model reported first);
-    * round c04rep, `supporting_reads_lost`: a novel spliced model that passed `filter_transcripts` in constructor k and is not
-      dumped by it because its chain was reported earlier passes its reads on: every read listed under it before the step is
-      listed - by constructor k - under a reported model with that chain (only the first local copy of a chain is judged: a
-      second one is re-assigned by the assigner, a stub here);
-    * `counts_not_forwarded`: every such line reached the shared counter (`forward_counts`) under the same id"""
+    * every line of transcript_model_reads names a model dumped by this or an EARLIER constructor of the chromosome;
+    * round c04rep2, `supporting_reads_lost`: every novel spliced model dumped by an EARLIER constructor whose span overlaps the hull
+      of the reads of constructor k is in the storage the second `assign_reads_to_models` of constructor k works on (the assigner -
+      a stub here - decides which reads it takes), whether or not constructor k built a model of that chain; and every read of a
+      local model that is withheld because its chain was reported earlier is OFFERED to that assigner or listed (it does not
+      vanish: it has a line in transcript_model_reads);
+    * `counts_not_forwarded`: every line reached the shared counter (`forward_counts`) under the same id"""
     kw = copy.deepcopy(kw)
     kw["state"] = dict(kw["state"], reported=[])          # the chromosome task starts with cleared containers
     snaps = []
@@ -679,10 +757,26 @@ def oracle_chr_case(kw):
         return None
     seen = {}
     chain_of = {}
+    span_of = {}
+    first_key = set()
     for k, ro in enumerate(res["regions"]):
+        snap = snaps[k] if k < len(snaps) else None
+        rspan = kw["regions"][k].get("span")
+        if snap and snap["offered"] is not None and rspan is not None:
+            for tid, (a, b) in span_of.items():
+                if a <= rspan[1] and rspan[0] <= b and tid not in snap["offered"]:
+                    return (LOST_KIND, "constructor %d processes reads spanning %s; %s (%d-%d, chain %s), reported by an earlier constructor, overlaps them "
+                            "but is not among the models its second assign_reads_to_models compares the reads with (%s)"
+                            % (k, rspan, tid, a, b, list(chain_of[tid][1])[:3], snap["offered"]))
         own = spliced_novel_keys(ro)
         for tid, key in own:
             chain_of.setdefault(tid, key)
+        for m in ro["store"]["models"]:
+            # the dict names ONE model per (strand, chain): the first one reported (a constructor may report a chain twice by
+            # itself: the listed finding `monointron_apa_duplicates`)
+            if m["tid"] in chain_of and m["exons"] and chain_of[m["tid"]] not in first_key:
+                first_key.add(chain_of[m["tid"]])
+                span_of.setdefault(m["tid"], (m["exons"][0][0], m["exons"][-1][1]))
         ids = {m["tid"] for m in ro["store"]["models"]} | set(chain_of)
         for rid, tid in ro["r2t"]:
             if tid != "*" and tid not in ids:
@@ -692,25 +786,17 @@ def oracle_chr_case(kw):
                 return ("duplicate_novel_chain", "constructors %d and %d of one chromosome report %s and %s with the intron chain %s on strand %s"
                         % (seen[key][0], k, seen[key][1], tid, list(key[1])[:3], key[0]))
             seen.setdefault(key, (k, tid))
-        snap = snaps[k] if k < len(snaps) else None
         if snap and snap["pre_drop"] is not None:
             dumped = {m["tid"] for m in ro["store"]["models"]}
-            listed = defaultdict(set)
-            for rid, tid in ro["r2t"]:
-                if tid in chain_of:
-                    listed[rid].add(chain_of[tid])
-            judged = set()
+            lines = {rid for rid, _t in ro["r2t"]}
             for tid, strand, chain, spliced_novel, rids in snap["pre_drop"]:
                 key = (strand, chain)
-                if not spliced_novel or tid in dumped or key in judged:
-                    continue
-                if key in seen and seen[key][0] < k:
-                    judged.add(key)
-                    lost = [r for r in rids if key not in listed[r]]
-                    if lost:
-                        return (LOST_KIND, "constructor %d: %s passed filter_transcripts with %d reads; its intron chain %s was reported by constructor %d as %s; "
-                                "%d of the reads (%s, ...) are listed under no model with that chain"
-                                % (k, tid, len(rids), list(chain)[:3], seen[key][0], seen[key][1], len(lost), lost[0]))
+                if spliced_novel and tid not in dumped and key in seen and seen[key][0] < k:
+                    gone = [r for r in rids if r not in lines]
+                    if gone:
+                        return (LOST_KIND, "constructor %d: %s passed filter_transcripts with %d reads and is withheld (its chain %s was reported by constructor %d as %s); "
+                                "%d of the reads (%s, ...) have no line in transcript_model_reads at all"
+                                % (k, tid, len(rids), list(chain)[:3], seen[key][0], seen[key][1], len(gone), gone[0]))
             counted = defaultdict(set)
             for rid, tids in snap["counted"]:
                 counted[rid].update(tids)
@@ -721,8 +807,8 @@ def oracle_chr_case(kw):
 
 
 def real_drop(kw):
-    """the real `drop_novel_chains_reported_elsewhere` on a storage built by add_model steps, with a preset class-level container;
-    result in the shape of driver op `drop_keep`"""
+    """the real `drop_novel_chains_reported_elsewhere` on a storage built by add_model steps, with a preset class-level container and
+    reads whose corrected exons span `kw["span"]`; result in the shape of driver op `drop_join`"""
     C04 = _C04()
     IG, GB, GI, PF, TP = C04._impl()
     cls = GB.GraphBasedModelConstructor
@@ -732,14 +818,20 @@ def real_drop(kw):
     saved = copy.copy(cls.reported_novel_chains) if has_set else None
     if has_set:
         _set_reported(cls, kw["reported"])
+    ex = _span_exons(kw["span"])
+    storage = [types.SimpleNamespace(read_id="s%d" % i, corrected_exons=ex) for i in range(2)]
     try:
-        c.drop_novel_chains_reported_elsewhere()
-        copies = getattr(c, "repeated_chain_models", [])
+        n0 = len(c.transcript_model_storage)
+        if _takes_reads(cls):
+            c.drop_novel_chains_reported_elsewhere(storage)
+        else:
+            c.drop_novel_chains_reported_elsewhere()
+        joined = getattr(c, "earlier_models", getattr(c, "repeated_chain_models", []))
         res = {"store": C04.store_json(c),
-               "final": [m.transcript_id for m in c.transcript_model_storage if not any(m is x for x in copies)],
+               "final": [m.transcript_id for m in c.transcript_model_storage if not any(m is x for x in joined)],
                "reported": _get_reported(cls)}
-    except (KeyError, AttributeError) as ex:
-        res = {"error": "error", "exc": type(ex).__name__}
+    except (KeyError, AttributeError, IndexError) as ex_:
+        res = {"error": "error", "exc": type(ex_).__name__}
     finally:
         if has_set:
             cls.reported_novel_chains = saved
@@ -755,19 +847,29 @@ def gen_drop_case(rng):
         m = x["m"]
         if rng.random() < 0.3 and len(m["exons"]) > 1:
             m["exons"] = [list(e) for e in ops[0][1]["m"]["exons"]] if len(ops[0][1]["m"]["exons"]) > 1 else m["exons"]
-        keys.append([m["strand"], [list(i) for i in C04.junctions([tuple(e) for e in m["exons"]])]])
-    reported = [k for k in keys if rng.random() < 0.4]
+        keys.append(([m["strand"], [list(i) for i in C04.junctions([tuple(e) for e in m["exons"]])]], m))
+    reported = [(k, m) for k, m in keys if rng.random() < 0.4]
     if rng.random() < 0.3:
-        reported.append(["+", [[7, 9]]])
+        reported.append((["+", [[7, 9]]], {"chr": "chr1", "strand": "+", "exons": [[1, 6], [10, 20]], "intron_path": [[7, 9]]}))
+    if rng.random() < 0.03:
+        # a dict entry whose model has no exons: IndexError of get_start()
+        reported.append((["-", [[3, 4]]], {"chr": "chr1", "strand": "-", "exons": [], "intron_path": []}))
     seen, uniq = set(), []
-    own_ids = [x["m"]["tid"] for _k, x in ops]
-    for k in reported:
+    for k, m in reported:
         t = (k[0], tuple(map(tuple, k[1])))
         if t not in seen:
             seen.add(t)
-            # the id of the model reported first: normally foreign; 5 %: an id of this storage (the model must follow the dict ops)
-            uniq.append([k, rng.choice(own_ids) if own_ids and rng.random() < 0.05 else "transcript%d.chrF.nnic" % (700 + len(uniq))])
-    return {"mapq": kw["mapq"], "_ops": ops, "_params": kw["_params"], "reported": uniq}
+            # the model reported first: the chain of the local model, other ends (shifted by up to 300), a foreign id
+            sh = rng.choice([0, 0, -40, 300])
+            ex = [list(e) for e in m["exons"]]
+            if ex:
+                ex[0][0] += min(sh, 0)
+                ex[-1][1] += max(sh, 0)
+            uniq.append([k, {"chr": m.get("chr", "chr1"), "strand": k[0], "tid": "transcript%d.chrF.nnic" % (700 + len(uniq)), "gene": "novel_gene_chrF_700",
+                             "exons": ex, "type": "novel_not_in_catalog", "intron_path": m.get("intron_path", [])}])
+    u = rng.random()
+    span = None if u < 0.1 else ([90000, 90100] if u < 0.3 else [rng.choice([0, 60, 130]), rng.choice([70, 140, 400])])
+    return {"mapq": kw["mapq"], "_ops": ops, "_params": kw["_params"], "reported": uniq, "span": span}
 
 
 def corr_drop(ctx, n):
@@ -776,12 +878,13 @@ def corr_drop(ctx, n):
     for _ in range(n):
         kw = gen_drop_case(ctx.rng)
         before, iv = real_drop(kw)
-        cases.append(("drop_keep", dict(kw, store=before)))
+        cases.append(("drop_join", dict(kw, store=before)))
         vals.append(iv)
         if not vlib.is_err(iv):
-            ctx.count("drop_keep:local_copies=%d" % (len(iv["store"]["models"]) - len(iv["final"])))
-            ctx.count("drop_keep:second_copies_deleted=%d" % (len(before["models"]) - len(iv["store"]["models"])))
-    C04.run_cases(ctx, cases, vals, lambda op, kw, mo: not vlib.is_err(mo) and len(mo["final"]) < len(kw["store"]["models"]))
+            ctx.count("drop_join:earlier_models_joined=%d" % min(len(iv["store"]["models"]) - len(iv["final"]), 3))
+            ctx.count("drop_join:local_copies_deleted=%d" % min(len(before["models"]) - len(iv["final"]), 3))
+    C04.run_cases(ctx, cases, vals, lambda op, kw, mo: not vlib.is_err(mo) and (len(mo["final"]) < len(kw["store"]["models"])
+                                                                              or len(mo["store"]["models"]) > len(mo["final"])))
 
 
 def correspondence(ctx):
@@ -808,22 +911,20 @@ def correspondence(ctx):
                          lambda op, kw, mo: not vlib.is_err(mo) and any(r["store"]["models"] for r in mo["regions"]), canon_model=canon_chr)
     # how often the new step acted: compare with the model of the code before the fix (driver only)
     orig = ctx.driver.run([vlib.req("C04.chr_run", **dict(kw, variant="orig")) for _op, kw in cases])
-    b2b4 = ctx.driver.run([vlib.req("C04.chr_run", **dict(kw, variant="b2b4dd9")) for _op, kw in cases])
-    dropped = lost = 0
-    for mo, mo0, mo1 in zip(outs, orig, b2b4):
+    prev = ctx.driver.run([vlib.req("C04.chr_run", **dict(kw, variant="0c8e711")) for _op, kw in cases])
+    dropped = differs = 0
+    for mo, mo0, mo1 in zip(outs, orig, prev):
         if isinstance(mo, dict) and isinstance(mo0, dict) and "regions" in mo and "regions" in mo0:
             n1 = sum(len(r["store"]["models"]) for r in mo["regions"])
             n0 = sum(len(r["store"]["models"]) for r in mo0["regions"])
             if n0 > n1:
                 dropped += 1
         if isinstance(mo, dict) and isinstance(mo1, dict) and "regions" in mo and "regions" in mo1:
-            # the model of fix b2b4dd9 on the same input: how often it lists a read with `*` that the current code keeps
-            s1 = sum(1 for r in mo1["regions"] for _rid, t in r["r2t"] if t == "*")
-            s2 = sum(1 for r in mo["regions"] for _rid, t in r["r2t"] if t == "*")
-            if s1 > s2:
-                lost += 1
+            # the model of fix 0c8e711 on the same input and the same recorded assigner answers
+            if [r["r2t"] for r in mo["regions"]] != [r["r2t"] for r in mo1["regions"]]:
+                differs += 1
     ctx.extra["chr_run_cases_where_the_drop_acts"] = dropped
-    ctx.extra["chr_run_cases_where_b2b4dd9_loses_reads"] = lost
+    ctx.extra["chr_run_cases_where_0c8e711_lists_reads_differently"] = differs
 
 
 def oracle(ctx, disagreements, broken):
